@@ -20,7 +20,37 @@ mod seqx;
 mod sut;
 mod vt;
 
+/// A `log` backend that formats every record and throws the text away: with
+/// no backend installed the `log` macros do not even evaluate their arguments,
+/// so code inside `info!(...)`/`debug!(...)` argument lists would never run
+/// under the checks. (Formatting also runs the Display/Debug impls of what is
+/// logged.)
+struct EvalLogger;
+
+impl log::Log for EvalLogger {
+    fn enabled(&self, _: &log::Metadata) -> bool {
+        true
+    }
+    fn log(&self, record: &log::Record) {
+        use std::fmt::Write;
+        struct Sink;
+        impl Write for Sink {
+            fn write_str(&mut self, _: &str) -> std::fmt::Result {
+                Ok(())
+            }
+        }
+        let _ = write!(Sink, "{}", record.args());
+    }
+    fn flush(&self) {}
+}
+
+static EVAL_LOGGER: EvalLogger = EvalLogger;
+
 fn main() {
+    if std::env::var("VX_NO_LOGGER").is_err() {
+        let _ = log::set_logger(&EVAL_LOGGER);
+        log::set_max_level(log::LevelFilter::Trace);
+    }
     // panics of the subject are caught and classified; keep stderr quiet
     if std::env::var("VX_PANIC_TRACE").is_err() {
         std::panic::set_hook(Box::new(|_| {}));
